@@ -173,6 +173,8 @@ class Terms:
         if isinstance(e, str):
             return t
         if "f" in e:
+            if t[0] == "cfold":
+                return ("const", t[1]) if e["f"] == 0 else ("const", 0)
             name = e["name"] if e.get("name") is not None else e["f"]
             if isinstance(name, str) and name.isdigit():
                 name = int(name)
@@ -242,7 +244,23 @@ class Terms:
                 return inner
             return ("cast", ck, inner)
         if k == "binop":
-            return ("binop", rv["op"], self.of_operand(rv["a"], depth), self.of_operand(rv["b"], depth))
+            a = self.of_operand(rv["a"], depth)
+            b = self.of_operand(rv["b"], depth)
+            op = rv["op"]
+            if a[0] == "const" and b[0] == "const":
+                base = op.replace("WithOverflow", "").replace("Unchecked", "")
+                v = None
+                if base == "Add":
+                    v = a[1] + b[1]
+                elif base == "Sub" and a[1] >= b[1]:
+                    v = a[1] - b[1]
+                elif base == "Mul":
+                    v = a[1] * b[1]
+                if v is not None and v < (1 << 63):
+                    if op.endswith("WithOverflow"):
+                        return ("cfold", v)
+                    return ("const", v)
+            return ("binop", op, a, b)
         if k == "unop":
             return ("unop", rv["op"], self.of_operand(rv["a"], depth))
         if k == "discr":
